@@ -873,7 +873,8 @@ def run(ctx):
         "stride = size of all segments) in the order the StorageOrder enumerator names, so distinct in-range bins have "
         "distinct non-overlapping positions for every geometry; (c) every seek / buffer copy obtains its position from that "
         "one address function; (d) every stream writer flushes before a normal return; (e) read_data/write_data results are "
-        "tested. NOT decided: value round trips through number-type conversion and byte swapping, header value formatting, "
+        "tested; (p) segment numbers of public get_* requests are range-checked before any per-segment table lookup; (q) the two header "
+        "writers agree on the exam-information keys. NOT decided: value round trips through number-type conversion and byte swapping, header value formatting, "
         "segment conversion constructors (runtime values)."
     )
     ctx.assumptions += [
